@@ -24,4 +24,79 @@ CHECKS = {
     },
 }
 
+_G1_NOTE = ('numpy replaced inside treadmill.scheduler by an exact integer / '
+            'fraction model (lib/symnp.py; IEEE-exact for quantities <= 4095, '
+            'denominators 1 excluded; witnesses of completed paths are '
+            'replayed on the real numpy), _any/_all replaced by one Or/And '
+            'term, time.time() fixed; pre-states built through the real '
+            'constructors and Server.restore; z3 and the CrossHair tracer '
+            'trusted.')
+
+
+def _g1(text, ref):
+    return {'text': text, 'note': _G1_NOTE,
+            'technique': TECH_SYMX + '; one-query invariant oracles',
+            'design_ref': ref}
+
+
+CHECKS.update({
+    'C02': _g1('Two solver-decided parts on the real code: (a) inductive step '
+               '- from an ARBITRARY state in which every rack/pod/cell '
+               'aggregate is only known to be an upper bound of its up '
+               'children (aggregates are fresh solver variables), each '
+               'mutator (put, remove, six state transitions, add/remove node) '
+               're-establishes the bound for capacity, traits, labels and '
+               'valid-until, so histories of any length are covered if the '
+               'invariant is inductive; (b) a probe added to a quiescent cell '
+               'with havocked aggregates or cursors is placed whenever a '
+               'leaf-only scan says some server fits. Bound: 3 servers / '
+               'pod-rack-server for (a), 2 servers for (b) quick.',
+               'DESIGN.md section 5, C02'),
+    'C03': _g1('Every (instance, before, after) tuple of one scheduling cycle '
+               'and the post-state are checked against partition label, '
+               'traits, server state and lease (valid_until and expiries are '
+               'solver variables) over all enumerated shapes: two partitions, '
+               'moves between allocations, relabelled servers, trait masks, '
+               'allocation traits, frozen servers, renewals. 3 instances, 2 '
+               'servers, 1 dimension, one event + one cycle.',
+               'DESIGN.md section 5, C03'),
+    'C04': _g1('Affinity counts recomputed from the leaves after one and two '
+               'cycles under capacity pressure (capacities/demands symbolic, '
+               'so eviction and restore branches are all taken) for every '
+               'initial placement that satisfies the limits; limits on '
+               'server / rack / cell; counters compared with true counts.',
+               'DESIGN.md section 5, C04'),
+    'C05': _g1('Identity invariants (unique, in range, only on placed '
+               'instances, available = range minus held, no stale group '
+               'object) after one and two cycles following each group event '
+               '(grow, shrink, zero, remove, remove+recreate), server '
+               'failure, blacklisting, removal, under symbolic capacity '
+               'pressure; group count <= 2, 3 instances.',
+               'DESIGN.md section 5, C05'),
+    'C06': _g1('Allocation trees (one, two siblings, parent with child) with '
+               'symbolic ranks, rank adjustments, priorities and demands, '
+               'reservations from {0,2,5}, caps from {none,1,1.5,2}: the real '
+               'utilization_queue / schedule_alloc output is checked against '
+               'a sandwich of the stated ordering rules (permutation, rank '
+               'order, priority order inside an allocation, priority-0 last, '
+               'boost iff within reservation, unranked iff beyond cap).',
+               'DESIGN.md section 5, C06'),
+    'C07': _g1('With the queue captured at Cell._find_placements, every '
+               'instance that was on an up server and is displaced must have '
+               'an instance strictly ahead of it that gained a placement; a '
+               'second idle cycle must change nothing. Capacities, demands, '
+               'priorities symbolic; 3 instances / 2 servers (4 in thorough), '
+               'events: server down, priority change, server replaced, an '
+               'unplaceable instance ahead.',
+               'DESIGN.md section 5, C07'),
+    'C08': _g1('Down-since time and each retention timeout are solver '
+               'variables compared with the cycle instant: kept iff '
+               'since+timeout > now; frozen servers keep instances and get no '
+               'new ones; blacklisted instances end unplaced; the eviction '
+               'branch never touches a non-up server; next wake-up not later '
+               'than the earliest pending expiry. Includes frozen->down and '
+               'down->frozen transitions.',
+               'DESIGN.md section 5, C08'),
+})
+
 NOT_YET = {}
